@@ -385,9 +385,9 @@ def run(ctx):
 
     # ---- 2./3. TLC jobs (independent of each other; a few run side by side, <= 6 TLC workers in total)
     if ctx.quick:
-        mc_list = [(0, 0, 1), (1, 0, 1), (1, 1, 1)]
+        mc_list = [(1, 0, 1), (0, 1, 1), (0, 0, 1)]
         real_list = [(0, 0, 1)]
-        live_list = [(1, 0, 1)]
+        live_list = [(0, 0, 1)]
         edge_list = [(0, 0, 1)]
         sim_list = [((2, 1, 1), 11, 40)]
     else:
@@ -404,11 +404,13 @@ def run(ctx):
     if not ctx.quick:
         vac_list.append(("cached-save-supersedes-change", dict(FixNotify=True, FixOpen=True, FixClear=True, FixSave=False),
                          "CexNoLostEdit", (1, 1, 1)))
+    # action coverage is taken over one configuration with a didChange and one with a didSave
+    cov_cfgs = [(1, 0, 1), (0, 1, 1)]
     jobs = []
     with concurrent.futures.ThreadPoolExecutor(max_workers=3) as ex:
         for t in mc_list:
             jobs.append(("mc", t, ex.submit(model_check, conf(t[0], t[1], t[2], abs_full, abs_cached, flags, known), cname(t),
-                                            t == (1, 1, 1))))
+                                            t in cov_cfgs)))
         for t in real_list:
             jobs.append(("real", t, ex.submit(model_check, conf(t[0], t[1], t[2], full, cached, flags, known), "real-" + cname(t))))
         for t in live_list:
@@ -422,16 +424,19 @@ def run(ctx):
             jobs.append(("sim", t, ex.submit(sim_pool, t, sd, num)))
         done = [(k, t, f.result()) for (k, t, f) in jobs]      # re-raises ToolError
     cov = None
-    r111 = results.get(cname((1, 1, 1)))
-    if r111 is not None and r111.violated is None:
-        cov = r111.coverage_actions()
+    rcov = [results.get(cname(t)) for t in cov_cfgs]
+    if all(r is not None and r.violated is None for r in rcov):
+        cov = {}
+        for r in rcov:
+            for a, (d, n) in r.coverage_actions().items():
+                cov[a] = (cov.get(a, (0, 0))[0] + d, cov.get(a, (0, 0))[1] + n)
         dead = [a for a, (d, n) in cov.items() if n == 0]
         expect_dead = {"HOpenSet" if flags["FixOpen"] else "HSetCompiling"}
         if not flags["FixClear"]:
             expect_dead.add("WPickupClear")
         really_dead = [a for a in dead if a not in expect_dead]
         if really_dead or not cov:
-            raise ToolError("vacuity: actions never taken in c1s1w1: %s" % really_dead)
+            raise ToolError("vacuity: actions never taken in %s: %s" % ([cname(t) for t in cov_cfgs], really_dead))
     vac = {}
     for k, t, res in done:
         if k == "vac":
